@@ -15,7 +15,7 @@ def rd (ws : Array Nat) (i : Nat) : Nat := ws.getD i 0
 
 theorem rd_set (ws : Array Nat) (j w i : Nat) :
     rd (ws.setIfInBounds j w) i = if i = j ∧ j < ws.size then w else rd ws i :=
-  getD_setIfInBounds' ws j w i
+  getD_setIfInBounds ws j w i
 
 theorem rd_set_self (ws : Array Nat) (j w : Nat) (h : j < ws.size) :
     rd (ws.setIfInBounds j w) j = w := by
@@ -28,7 +28,7 @@ theorem rd_set_ne (ws : Array Nat) (j w i : Nat) (h : i ≠ j) :
 theorem rd_lt {W : Nat} {ws : Array Nat} (h : WordsOK W ws) (i : Nat) : rd ws i < 2 ^ W :=
   getD_lt_of_WordsOK h i
 
-theorem rd_of_ge {ws : Array Nat} {i : Nat} (h : ws.size ≤ i) : rd ws i = 0 := getD_of_ge' h
+theorem rd_of_ge {ws : Array Nat} {i : Nat} (h : ws.size ≤ i) : rd ws i = 0 := getD_of_ge h
 
 theorem readS_rd {ws : Array Nat} {i : Nat} (h : i < ws.size) : Out.readS ws i = .ok (rd ws i) :=
   readS_eq h
@@ -76,6 +76,29 @@ theorem succ_mul_le {q d : Nat} (W : Nat) (h : q < d) : q * W + W ≤ d * W := b
   have := Nat.mul_le_mul_right W (show q + 1 ≤ d from h)
   rw [Nat.add_mul, Nat.one_mul] at this
   exact this
+
+theorem div_mod_of_range (W q k : Nat) (h1 : q * W ≤ k) (h2 : k < q * W + W) :
+    k / W = q ∧ k % W = k - q * W := by
+  have hW : 0 < W := by omega
+  have e : k = W * q + (k - q * W) := by rw [Nat.mul_comm]; omega
+  have hr : k - q * W < W := by omega
+  constructor
+  · rw [e, Nat.mul_add_div hW, Nat.div_eq_of_lt hr, Nat.add_zero]
+  · conv => lhs; rw [e]
+    rw [Nat.mul_add_mod, Nat.mod_eq_of_lt hr]
+
+theorem divCeil_arith (W N : Nat) (hW : 0 < W) (hN : 0 < N) :
+    ∃ m, divCeil N W = m + 1 ∧ m * W < N ∧ N ≤ m * W + W := by
+  unfold divCeil
+  have e := div_mod_decomp W (N + W - 1)
+  have hr : (N + W - 1) % W < W := Nat.mod_lt _ hW
+  generalize (N + W - 1) / W = nW at *
+  generalize (N + W - 1) % W = r at *
+  cases nW with
+  | zero => omega
+  | succ m =>
+    rw [Nat.add_mul, Nat.one_mul] at e
+    exact ⟨m, rfl, by omega, by omega⟩
 
 /-! ## masks -/
 
@@ -222,5 +245,83 @@ theorem vals_length (W : Nat) (s : St) : (s.vals W).length = s.len := by
 theorem vals_getElem (W : Nat) (s : St) (i : Nat) (h : i < (s.vals W).length) :
     (s.vals W)[i] = valAt W s.words s.bw i := by
   simp [St.vals]
+
+/-! ## an element read off one word or two adjacent words -/
+
+theorem elem_in_word {W : Nat} (orig : Array Nat) (bw q off idx : Nat) (hbw : bw ≤ W)
+    (hoff : off + bw ≤ W) (hpos : idx * bw = q * W + off) :
+    (rd orig q >>> off) &&& maskOf W bw = valAt W orig bw idx := by
+  apply eq_valAt
+  intro j
+  rw [Nat.testBit_and, Nat.testBit_shiftRight, testBit_maskOf hbw]
+  by_cases hj : j < bw
+  · rw [hpos, Nat.add_assoc, bitAt_word _ _ _ (by omega)]
+    simp [hj]
+  · simp [hj]
+
+theorem elem_straddle {W : Nat} (orig : Array Nat) (hok : WordsOK W orig) (bw q off idx : Nat)
+    (hbw : bw ≤ W) (hoff : off ≤ W) (hpos : idx * bw = q * W + off) :
+    ((rd orig q >>> off) ||| shlW W (rd orig (q + 1)) (W - off)) &&& maskOf W bw
+      = valAt W orig bw idx := by
+  apply eq_valAt
+  intro j
+  rw [Nat.testBit_and, testBit_maskOf hbw]
+  by_cases hj : j < bw
+  · rw [funnel_stream hok q off j hoff (by omega), hpos]
+    simp [hj]
+  · simp [hj]
+
+/-! ## moving a bit range -/
+
+/-- From a per-word description of the new store (first word, middle words, last word, frame)
+to the bit-stream statement "the range `[dp, dp+L)` now holds source bits `[sp, sp+L)`". -/
+theorem assemble {W : Nat} (hW : 0 < W) (S : Nat → Bool) (d d' : Array Nat)
+    (sp dp L df dstBit dl : Nat) (hL : 0 < L)
+    (hdp : dp = df * W + dstBit) (hdb : dstBit < W)
+    (hdl1 : dl * W ≤ dp + L - 1) (hdl2 : dp + L - 1 < dl * W + W)
+    (first : ∀ b, b < W → (rd d' df).testBit b =
+      if dstBit ≤ b ∧ df * W + b < dp + L then S (sp + b - dstBit) else (rd d df).testBit b)
+    (middle : ∀ q, df < q → q < dl → ∀ b, b < W → (rd d' q).testBit b = S (sp + q * W + b - dp))
+    (last : df < dl → ∀ b, b < W → (rd d' dl).testBit b =
+      if dl * W + b < dp + L then S (sp + dl * W + b - dp) else (rd d dl).testBit b)
+    (frame : ∀ q, (q < df ∨ dl < q) → rd d' q = rd d q) :
+    ∀ k, bitAt W d' k = if dp ≤ k ∧ k < dp + L then S (k - dp + sp) else bitAt W d k := by
+  apply bitAt_ext_word hW
+  intro q r hr
+  rw [bitAt_word d q r hr]
+  have hdfdl : df ≤ dl := by
+    apply Nat.le_of_not_lt
+    intro h
+    have := succ_mul_le W h
+    omega
+  by_cases h1 : q < df
+  · rw [frame q (Or.inl h1)]
+    have := succ_mul_le W h1
+    rw [if_neg (by omega)]
+  · by_cases h2 : q = df
+    · subst h2
+      rw [first r hr]
+      by_cases hc : dstBit ≤ r ∧ q * W + r < dp + L
+      · rw [if_pos hc, if_pos (by omega)]
+        congr 1; omega
+      · rw [if_neg hc, if_neg (by omega)]
+    · have h3 : df < q := by omega
+      have h3' := succ_mul_le W h3
+      by_cases h4 : q < dl
+      · rw [middle q h3 h4 r hr]
+        have := succ_mul_le W h4
+        rw [if_pos (by omega)]
+        congr 1; omega
+      · by_cases h5 : q = dl
+        · subst h5
+          rw [last h3 r hr]
+          by_cases hc : q * W + r < dp + L
+          · rw [if_pos hc, if_pos (by omega)]
+            congr 1; omega
+          · rw [if_neg hc, if_neg (by omega)]
+        · have h6 : dl < q := by omega
+          rw [frame q (Or.inr h6)]
+          have := succ_mul_le W h6
+          rw [if_neg (by omega)]
 
 end Sux.BFV.C10
